@@ -6,7 +6,7 @@ META = {
     "technique": "Lean 4 theorems over an executable model of groupbalancer.go (Range, RoundRobin, RackAffinity with Go's map iteration orders as explicit parameters), for all member / partition lists; model↔code differential correspondence through a compiled Lean oracle on exhaustively enumerated small groups and seeded random large ones; the C14 monitor (cover, only-subscribers, balance, run/stride shape, rack bound) is evaluated on the implementation's output",
     "level_claimed": {
         "category": "proof",
-        "text": "Kernel-checked theorems for every list of members with distinct ids (topic lists may repeat topics) and every list of partitions (no size bound): each listed partition of a subscribed topic goes to exactly one subscriber, nothing to non-subscribers, loads differ by at most one — for Range, RoundRobin and RackAffinity; Range = contiguous runs by id rank, RoundRobin = strides by id rank, both invariant under member listing order; RackAffinity for every iteration order of its two Go map loops: no out-of-range slice/index (rack_total), cover, balance and the per-rack affinity bound min(led in rack, members in rack x floor(P/M)). The model is tied to groupbalancer.go by index/selection/ordering expressions re-extracted from the source on every run (Gen/GroupBalancerSel.lean, *_regenerated theorems) and by running the real AssignGroups and the model on the same generated groups (RackAffinity: equal to the model for some pair of iteration orders). Leader glue (joinGroup / makeMemberProtocolMetadata / assignTopicPartitions / makeSyncGroupRequestV0 / syncGroup) modelled as pure functions: glue_preserves (what a member decodes is its own entry of the balancer's map, nothing leaks between members, for every map iteration order), *_delivered (cover / balance / only-subscribers hold of what the members RECEIVE); tied by driving the real glue through verif_export_c14b.go and by extracted structural facts (fresh per-member map, repeated-topic guard). Round 4: extractTopics/readPartitions and makeAssignments steps (range/rr/rack_round, generation_view_is_delivered: C14 of Generation.Assignments w.r.t. the cluster's listing); byte-level model of groupMetadata / groupAssignment with read-after-write theorems in the reader monad (assignment/metadata_bytes_roundtrip); the concurrent life cycle as an LTS of N members and a coordinator over any number of rebalances (Model/GroupRound: generation_from_its_round, lifecycle_good), linked to C15's GroupRun steps and exercised on real concurrent ConsumerGroups. Round 5: missing-topic path of assignTopicPartitions / readTopicMetadata (missing_topic_reads; finding C14-D31 fixed), executable acceptor of the life-cycle model proved sound and fed with traces of real ConsumerGroups against the independent groupmock.Sim coordinator.",
+        "text": "Kernel-checked theorems for every list of members with distinct ids (topic lists may repeat topics) and every list of partitions (no size bound): each listed partition of a subscribed topic goes to exactly one subscriber, nothing to non-subscribers, loads differ by at most one — for Range, RoundRobin and RackAffinity; Range = contiguous runs by id rank, RoundRobin = strides by id rank, both invariant under member listing order; RackAffinity for every iteration order of its two Go map loops: no out-of-range slice/index (rack_total), cover, balance and the per-rack affinity bound min(led in rack, members in rack x floor(P/M)). The model is tied to groupbalancer.go by index/selection/ordering expressions re-extracted from the source on every run (Gen/GroupBalancerSel.lean, *_regenerated theorems) and by running the real AssignGroups and the model on the same generated groups (RackAffinity: equal to the model for some pair of iteration orders). Leader glue (joinGroup / makeMemberProtocolMetadata / assignTopicPartitions / makeSyncGroupRequestV0 / syncGroup) modelled as pure functions: glue_preserves (what a member decodes is its own entry of the balancer's map, nothing leaks between members, for every map iteration order), *_delivered (cover / balance / only-subscribers hold of what the members RECEIVE); tied by driving the real glue through verif_export_c14b.go and by extracted structural facts (fresh per-member map, repeated-topic guard). Round 4: extractTopics/readPartitions and makeAssignments steps (range/rr/rack_round, generation_view_is_delivered: C14 of Generation.Assignments w.r.t. the cluster's listing); byte-level model of groupMetadata / groupAssignment with read-after-write theorems in the reader monad (assignment/metadata_bytes_roundtrip); the concurrent life cycle as an LTS of N members and a coordinator over any number of rebalances (Model/GroupRound: generation_from_its_round, lifecycle_good), linked to C15's GroupRun steps and exercised on real concurrent ConsumerGroups. Round 5: missing-topic path of assignTopicPartitions / readTopicMetadata (missing_topic_reads; finding C14-D31 fixed), executable acceptor of the life-cycle model proved sound and fed with traces of real ConsumerGroups against the independent groupmock.Sim coordinator. Round 6: the wire side end to end over the regenerated legacy codec (wire_delivery, join_wire_delivery), regenerated dataflow facts of assignTopicPartitions / nextGeneration.",
         "design_ref": "DESIGN.md §7 C14",
     },
     "level_note": "Trusted: Lean kernel; propext/Classical.choice/Quot.sound; the driver/oracle correspondence (exhaustive small + sampled large inputs; Go's map iteration order is sampled, the theorems quantify over all orders); Go's sort.Slice and string comparison are modelled (insertion sort over an order-embedding of the ids) and validated by correspondence only; ids/topics/racks are opaque keys.",
@@ -59,7 +59,7 @@ def run(ctx):
         "RackAffinity: each group called 4 (quick) / 12 (thorough) times, every distinct output is a case (Go map order is sampled, not controlled). "
         "round 4: xtopics (extractTopics), v<balancer> (Generation.Assignments after fetchOffsets/makeAssignments), byte level abytes/aread/mbytes/mread (600 / 8000 values: names up to 400 bytes, any int32, nil/empty user data, cut frames), life cycle l<balancer>: 9 / 60 histories of 2..5 real ConsumerGroups joining and leaving against an in-process coordinator, one case per stable generation (a phase that does not stabilise within 4 s is skipped, never a violation). "
         "round 5: w<balancer> = a round in which one subscribed topic does not exist (Metadata answer read by the real readTopicMetadatav1; 1/4 of the random groups with >= 2 topics); life-cycle racks decoded from the members' real JoinGroup metadata. "
-        "ltrace: 6 / 40 histories of real ConsumerGroups (Range) against groupmock.Sim, coordinator answers recorded and replayed through the executable acceptor of Model/GroupRound (accepted + every SyncGroup answer predicted). exhaustive budget measured from the driver lines (coverage.exhaustive_budget). "
+        "ltrace2: the life histories of Range / RoundRobin (heterogeneous subscriptions) replayed through the same acceptor from the harness coordinator's own trace. ltrace: 6 / 40 histories of real ConsumerGroups (Range) against groupmock.Sim, coordinator answers recorded and replayed through the executable acceptor of Model/GroupRound (accepted + every SyncGroup answer predicted). exhaustive budget measured from the driver lines (coverage.exhaustive_budget). "
         "distinct = distinct op lines with a non-empty assignment")
     concrete = [d for d in dis if d.get("kind") == "disagreement" and not d["holds_on_impl"]]
     cids = {id(d) for d in concrete}          # (list membership on 10^5 dicts is quadratic: a mutant must cost seconds)
